@@ -4,6 +4,7 @@ pub mod c01_sr;
 pub mod c02;
 pub mod rt;
 pub mod c03;
+pub mod c05;
 pub mod c06;
 pub mod c08;
 pub mod c09;
@@ -19,6 +20,7 @@ pub fn run(id: &str, ctx: &Ctx) -> i32 {
         "C01" => c01::run(ctx),
         "C02" => c02::run(ctx),
         "C03" => c03::run(ctx),
+        "C05" => c05::run(ctx),
         "C06" => c06::run(ctx),
         "C08" => c08::run(ctx),
         "C09" => c09::run(ctx),
@@ -36,6 +38,7 @@ pub fn replay(id: &str, path: &str) -> i32 {
         "C01" => c01::replay(&v),
         "C02" => c02::replay(&v),
         "C03" => c03::replay(&v),
+        "C05" => c05::replay(&v),
         "C06" => c06::replay(&v),
         "C08" => c08::replay(&v),
         "C09" => c09::replay(&v),
